@@ -64,7 +64,16 @@ def make(shape, family, seed):
 @st.composite
 def strat_case(draw):
     ndim = draw(st.sampled_from([1, 2, 2]))
-    if ndim == 1:
+    if draw(st.integers(0, 59)) == 0:
+        # long lanes (thousands of samples, as a real time series or channel has)
+        ndim = draw(st.sampled_from([1, 2]))
+        lane = draw(st.sampled_from([1025, 4097, 5000]))
+        if ndim == 1:
+            shape, axis = [lane], draw(st.sampled_from([None, 0]))
+        else:
+            axis = draw(st.sampled_from([0, 1]))
+            shape = [lane, 2] if axis == 0 else [2, lane]
+    elif ndim == 1:
         shape = [draw(st.integers(8, 40))]
         axis = draw(st.sampled_from([None, 0]))
     else:
